@@ -15,6 +15,7 @@ from ..gen import workload as W
 from ..prng import sub
 
 ID = "C19"
+PROBES = ['steps_that_changed_files']  # reach probes: counters that must be non-zero in a run (a zero is printed and recorded)
 LEVEL = "exploration"
 BUDGET = {"quick": 160, "thorough": 5000}
 WALL = {"quick": 300, "thorough": 3400}
